@@ -391,7 +391,7 @@ def copypath(source: str, dest: str) -> None:
             if not os.path.exists(path):
                 os.mkdir(path)
             root = path
-        shutil.copy(source, dest)
+    shutil.copy(source, dest)
 
 
 def toggle_debug_mode(switch_on: bool) -> None:
